@@ -388,6 +388,14 @@ class SqlImpl(TableImpl):
                     else:
                         needed_cols[node._uuid] = cnt + 1
 
+            distinct_cols = []
+            if isinstance(nd, verbs.Union) and nd.distinct:
+                # Which rows are duplicates is determined by all visible columns, so
+                # none of them may be dropped from a subquery below the union.
+                distinct_cols = [col._uuid for col in Cache.from_ast(nd.child).selected_cols()]
+                for uid in distinct_cols:
+                    needed_cols[uid] = needed_cols.get(uid, 0) + 1
+
             table, query, sqa_expr = cls.compile_ast(nd.child, needed_cols)
 
         if isinstance(nd, verbs.Mutate | verbs.Summarize):
@@ -530,8 +538,6 @@ class SqlImpl(TableImpl):
             # If column order doesn't match, wrap right AST with a Select to reorder
             if left_col_names != right_col_names:
                 # Get right cache to access Col objects for reordering
-                from pydiverse.transform._internal.pipe.cache import Cache
-
                 right_cache = Cache.from_ast(nd.right)
 
                 # Get Col objects from right cache in the order of left columns
@@ -599,6 +605,11 @@ class SqlImpl(TableImpl):
                         del needed_cols[node._uuid]
                     else:
                         needed_cols[node._uuid] = cnt - 1
+            for uid in distinct_cols:
+                if needed_cols[uid] == 1:
+                    del needed_cols[uid]
+                else:
+                    needed_cols[uid] -= 1
 
         return table, query, sqa_expr
 
